@@ -27,7 +27,7 @@ class QuicTlsSession:
             self.server_frame_buffer[frame.src_packet.packet_type].append(frame)
             self.server_frame_buffer[frame.src_packet.packet_type].sort(key=lambda x: x.offset)
 
-            for crypto_frame in self.server_frame_buffer[frame.src_packet.packet_type]:
+            for crypto_frame in list(self.server_frame_buffer[frame.src_packet.packet_type]):
                 if crypto_frame.offset == self.server_offset[frame.src_packet.packet_type]:
                     self.server_buffer[frame.src_packet.packet_type] += crypto_frame.crypto
                     self.server_offset[frame.src_packet.packet_type] += crypto_frame.crypto_length
@@ -38,7 +38,7 @@ class QuicTlsSession:
             self.client_frame_buffer[frame.src_packet.packet_type].append(frame)
             self.client_frame_buffer[frame.src_packet.packet_type].sort(key=lambda x: x.offset)
 
-            for crypto_frame in self.client_frame_buffer[frame.src_packet.packet_type]:
+            for crypto_frame in list(self.client_frame_buffer[frame.src_packet.packet_type]):
                 if crypto_frame.offset == self.client_offset[frame.src_packet.packet_type]:
                     self.client_buffer[frame.src_packet.packet_type] += crypto_frame.crypto
                     self.client_offset[frame.src_packet.packet_type] += crypto_frame.crypto_length
